@@ -458,7 +458,9 @@ BAD_INTS = ['1//0', '1%0', '9//(1-1)', '1/1', '1.5', '1e3', 'a', '1+', '(1', '1)
             '1.', "'1 // 0'", "' '", '"0 % 0"', '１２', '١']
 EXTREME_INTS = ['0', '-1', '-0', '+1', '99999999999999999999', '-99999999999999999999', '9' * 400, '9' * 5000,
                 '0' * 50, '-' * 50 + '1', '(' * 30 + '1' + ')' * 30, '9*' * 60 + '9', '0x7fffffffffffffff+1', '1_000',
-                "' 7 '", '2147483648', '-2147483649', '~0', 'True', '1-2*3//4%5', '(' * 120 + '1' + ')' * 120]
+                "' 7 '", '2147483648', '-2147483649', '~0', 'True', '1-2*3//4%5', '(' * 120 + '1' + ')' * 120,
+                # bounded powers: a huge value from a short text (harmless to evaluate: a 5000-digit integer)
+                '10**5000', '-(10**4999)*10', '(2**8)**2000', '¹', '²', '٣' * 3, '9' * 4300, '9' * 4301]
 # regular expressions.  BAD: re.compile raises (harness re-checks)
 BAD_REGEXES = ["'a('", "'a)'", "'[a'", "'*a'", "'a**'", "'a{2,1}'", "'(?P<n>a)(?P<n>b)'", "'(?<=a+)b'", "'\\1'",
                "'(?P=nosuch)'", "'(?z)'", "'\\'", "'[z-a]'", "'(?L)a'", "'a{99999999999999999999}'", "'\\N{nosuchname}'",
